@@ -35,6 +35,14 @@ func loadContracts(w *World) error {
 	}
 	cf.specText = sb.String()
 	cf.Specs = parseSpecSigs(cf.specText)
+	var names []string
+	for n := range w.Funcs {
+		names = append(names, n)
+	}
+	sort.Strings(names)
+	if err := cf.resolveApplies(names); err != nil {
+		return err
+	}
 	w.Contracts = cf
 	return nil
 }
@@ -81,6 +89,8 @@ func main() {
 		code = cmdDump(w, fs.Args(), *verbose, *showQuery)
 	case "check":
 		code = cmdCheck(w, fs.Args(), *tier, *verbose)
+	case "sweep":
+		code = cmdSweep(w, fs.Args(), *verbose)
 	default:
 		fmt.Fprintln(os.Stderr, "unknown command", cmd)
 		code = 2
@@ -131,4 +141,60 @@ func cmdDump(w *World, args []string, verbose bool, showQuery string) int {
 		}
 	}
 	return 0
+}
+
+// cmdSweep runs the executor on every function of the package without contracts (robustness and
+// a census of safety obligations).
+func cmdSweep(w *World, args []string, discharge bool) int {
+	names := make([]string, 0, len(w.Funcs))
+	for n := range w.Funcs {
+		names = append(names, n)
+	}
+	sort.Strings(names)
+	tot, failed := 0, 0
+	var all []*Obligation
+	for _, n := range names {
+		if len(args) > 0 && !strings.Contains(n, args[0]) {
+			continue
+		}
+		fn := w.Funcs[n]
+		if len(fn.Blocks) == 0 {
+			continue
+		}
+		fx := newFnExec(w, fn, w.Contracts.ByName[n])
+		obls, err := fx.Run()
+		if err != nil {
+			fmt.Println("ERR", n, err)
+			failed++
+			continue
+		}
+		tot += len(obls)
+		all = append(all, obls...)
+		if len(fx.outside) > 0 {
+			fmt.Println("OUT", n, fx.outside)
+		}
+	}
+	fmt.Printf("functions=%d obligations=%d failed=%d\n", len(names), tot, failed)
+	if discharge {
+		dischargeAll(all, 5, 16)
+		cnt := map[string]int{}
+		for _, o := range all {
+			cnt[o.Kind+"/"+o.Answer.Verdict.String()]++
+		}
+		for _, k := range sortedKeys(cnt) {
+			fmt.Println(k, cnt[k])
+		}
+		for _, o := range all {
+			if o.Answer.Verdict != VUnsat {
+				fmt.Printf("FAIL %-7s %-50s %s  %s\n", o.Answer.Verdict, o.Name, o.Pos, truncate(o.Src, 90))
+			}
+		}
+	}
+	return 0
+}
+
+func init() {
+	if os.Getenv("GOVC_KEEP") != "" {
+		keepQueries = true
+	}
 }
